@@ -285,10 +285,10 @@ FILE_TRUST = ["the container-reader model (AvroModel/File.lean) is hand-written 
               "the record decoder is the codec model's `read` (C03/C04) into the zero value of the Go type (typedmemclr + codec.Read)",
               "readN's chunked reading (1 MiB chunks) is modelled as such; memory consumption is outside the model (the harness measures it for unbacked declared lengths)"]
 PROPS["C07"] = {
-    "lean_modules": ["AvroModel.Props.C07"],
+    "lean_modules": ["AvroModel.Props.C07", "AvroModel.Props.C07b"],
     "required_theorems": ["delivers", "callback_error", "callback_error_count", "sync", "crc", "inflate", "damaged_block", "snappy_short",
                           "snappy_garbled", "magic", "no_schema", "bad_schema", "unknown_codec", "no_codec_means_null", "no_panic",
-                          "valid_mkHeader", "fuel_enough"],
+                          "valid_mkHeader", "fuel_enough", "written_callback_error"],
     "harness": ["C07"],
     "level_text": "Proof over a model of ReadFile / readFileHeader / readBytes / FileHeader.schema / the three decompress methods (AvroModel/File.lean; "
                   "binary.ReadVarint and io.ReadFull modelled from their sources, flate / snappy / crc32 / schema parsing + codec construction as "
